@@ -268,6 +268,31 @@ def run_history(ctx, script):
             except Exception as e:
                 res = "LinkError" if "Duplicate" in str(e) else "other:" + repr(e)
             S.ops.append({"op": "set", "node": cn, "name": "transport", "value": S.val(tr)})
+        elif kind == "multi":
+            # several options in ONE set_options call, a new transport among them: applied in the order given
+            ci = st["c"] % max(1, len(S.clients))
+            c, cn = S.clients[ci]
+            tr = suds.transport.http.HttpTransport()
+            tname, tn = S.reg_transport(tr)
+            pairs = [("transport", tr), (st["name"], st["value"])]
+            if st.get("transport_last") and c.options.transport is not None:
+                # (without a transport attached the transport options are unknown names and the call stops there)
+                pairs.reverse()
+            try:
+                c.set_options(**dict(pairs))
+            except AttributeError:
+                res = "AttributeError"
+            except Exception as e:
+                res = "LinkError" if "Duplicate" in str(e) or "Already linked" in str(e) else "other:" + repr(e)
+            # one call applies its options in the order given and stops at the first one that fails
+            applied = pairs
+            if res != "ok":
+                if pairs[0][0] == "transport":
+                    applied = pairs[:1] if res == "LinkError" else pairs
+                else:
+                    applied = pairs if c.options.transport is tr else pairs[:1]
+            for nm, v in applied:
+                S.ops.append({"op": "set", "node": cn, "name": nm, "value": S.val(v)})
         elif kind == "oldtransport":
             # a transport object that exists already: detached earlier, attached to this or to another client
             ci = st["c"] % max(1, len(S.clients))
@@ -389,6 +414,10 @@ def gen_steps(rng, cnames, tnames, nclients):
         return {"k": "set", "c": c, "name": "transport", "value": None}
     if r < 0.27:
         return {"k": "oldtransport", "c": c, "which": rng.randrange(6), "via": rng.choice(["attr", "set_options"])}
+    if r < 0.33:
+        nm = rng.choice(["timeout", "proxy", "headers", "username", "faults", "location"])
+        valid, _invalid = value_pool(nm)
+        return {"k": "multi", "c": c, "name": nm, "value": rng.choice(valid + [None]), "transport_last": rng.random() < 0.5}
     name = rng.choice(cnames + tnames + tnames + ["nosuch"])
     if name == "transport":
         return {"k": "newtransport", "c": c}
@@ -425,6 +454,9 @@ def run(ctx):
     atoms += [{"k": "clone", "c": 0}, {"k": "newtransport", "c": 0}, {"k": "newtransport", "c": 1},
               {"k": "oldtransport", "c": 0, "which": 0}, {"k": "oldtransport", "c": 1, "which": 0},
               {"k": "oldtransport", "c": 0, "which": 1},
+              {"k": "multi", "c": 0, "name": "timeout", "value": 5, "transport_last": False},
+              {"k": "multi", "c": 0, "name": "timeout", "value": 5, "transport_last": True},
+              {"k": "multi", "c": 1, "name": "proxy", "value": {"http": "h:1"}, "transport_last": False},
               {"k": "set", "c": 0, "name": "transport", "value": None}]
     depth = ctx.pick(2, 3)
     count = 0
